@@ -73,6 +73,9 @@ def _pack(lens):
     where = FC.fnloc(ctx, PACK)
     oks, err = FC.ok_worlds(ws)
     if err:
+        df = FC.definite_fault(ws)
+        if df:
+            return [('violation', key + ':fault', '%s [%s]: %s' % (where, desc, df))], 0
         return [('undecided', key, '%s [%s]: %s' % (where, desc, err))], 0
     out = []
     exp = []
@@ -123,23 +126,26 @@ def _count(lens):
     where = FC.fnloc(ctx, COUNT)
     oks, err = FC.ok_worlds(ws)
     if err:
+        df = FC.definite_fault(ws)
+        if df:
+            return [('violation', key + ':fault', '%s [%s]: %s' % (where, desc, df))], 0
         return [('undecided', key, '%s [%s]: %s' % (where, desc, err))], 0
-    if len(oks) != 1:
-        return [('undecided', key, '%s [%s]: counting forks into %d worlds' % (where, desc, len(oks)))], 0
-    w = oks[0]
     out = []
-    if not isinstance(w.ret, int):
-        out.append(('undecided', key, '%s [%s]: symbolic count' % (where, desc)))
-    elif w.ret != n:
-        if isinstance(w.ret, int) and w.ret == n % (1 << R) and n >= (1 << R):
-            out.append(('violation', 'count:return-narrow', '%s: returns %d for an array holding %d strings: the %d-bit return type cannot express the count'
-                        % (where, w.ret, n, R)))
-        else:
-            out.append(('violation', key + ':value', '%s [%s]: returns %r' % (where, desc, w.ret)))
-    if w.oob:
-        out.append(('violation', key + ':extent', '%s [%s]: %s - beyond the recorded length' % (where, desc, FC.fmt_oob(w.oob[0]))))
-    if any(r.writes for nme, r in w.regions.items() if not nme.startswith('%')):
-        out.append(('violation', key + ':writes', '%s [%s]: counting writes memory' % (where, desc)))
+    for w in oks:
+        if not isinstance(w.ret, int):
+            out.append(('undecided', key, '%s [%s]: symbolic count' % (where, desc)))
+        elif w.ret != n:
+            if isinstance(w.ret, int) and w.ret == n % (1 << R) and n >= (1 << R):
+                out.append(('violation', 'count:return-narrow', '%s: returns %d for an array holding %d strings: the %d-bit return type cannot express the count'
+                            % (where, w.ret, n, R)))
+            else:
+                out.append(('violation', key + ':value', '%s [%s]: returns %r' % (where, desc, w.ret)))
+        if w.oob:
+            out.append(('violation', key + ':extent', '%s [%s]: %s - beyond the recorded length' % (where, desc, FC.fmt_oob(w.oob[0]))))
+        if any(r.writes for nme, r in w.regions.items() if not nme.startswith('%')):
+            out.append(('violation', key + ':writes', '%s [%s]: counting writes memory' % (where, desc)))
+        if out:
+            break
     return out, (0 if out else 1)
 
 
@@ -150,6 +156,10 @@ def _unpack(t):
     poff, ssz = V.ptr_off(mod)
     n = len(lens)
     P = mod.ptr_bytes
+
+    def isnull(k):
+        # destinations may be given per string: True = none, 'first' = all but string 0, 'rest' = only string 0
+        return nulldst is True or (nulldst == 'first' and k == 0) or (nulldst == 'rest' and k > 0)
 
     def regions():
         pk, total = packed_region(lens)
@@ -162,7 +172,7 @@ def _unpack(t):
             V.poke_ptr(mod, sv, k * P, Ptr('d%d' % k, 0))
             d = Region('d%d' % k, 'sym', ssz)
             l = lens[k] if k < n else 4
-            if nulldst:
+            if isnull(k):
                 V.poke_ptr(mod, d, poff, None)
             else:
                 V.poke_ptr(mod, d, poff, Ptr('d%db' % k, 0))
@@ -171,8 +181,9 @@ def _unpack(t):
         r['strv'] = sv
         return r
     ws = bpa.analyse(mod, UNPACK, lambda: ([Ptr('arr', 0), Ptr('strv', 0), num], regions()), max_worlds=8, max_steps=3000000, gcache=ctx.gcache)
-    desc = 'packed array of %d strings, %d requested%s' % (n, num, ', no destinations' if nulldst else '')
-    key = 'unpack:%s:req%+d:%s' % (shape_key(lens), num - n, 'null' if nulldst else 'dst')
+    desc = 'packed array of %d strings, %d requested%s' % (n, num, {False: '', True: ', no destinations', 'first': ', no destination for string 0 only',
+                                                                    'rest': ', a destination for string 0 only'}[nulldst])
+    key = 'unpack:%s:req%+d:%s' % (shape_key(lens), num - n, {False: 'dst', True: 'null', 'first': 'null0', 'rest': 'dst0'}[nulldst])
     where = FC.fnloc(ctx, UNPACK)
     out = []
     ws = [x for x in ws if x.status != 'infeasible']
@@ -196,7 +207,7 @@ def _unpack(t):
                             % (where, desc, k, got if isinstance(got, int) else 'is not written (keeps its previous content)'
                                if got == V.peek(mod, Region('d%d' % k, 'sym', 2), 0, 2) else B.fmt_vec(got, 16), lens[k])))
                 break
-            if not nulldst:
+            if not isnull(k):
                 exp = [V.In('packed', o + 2 + i) for i in range(lens[k])]
                 st, text = V.compare_region(w.regions['d%db' % k], exp)
                 if st != 'ok':
@@ -204,7 +215,7 @@ def _unpack(t):
                     break
             o += 2 + lens[k]
         else:
-            if d.writes or (not nulldst and w.regions['d%db' % k].writes):
+            if d.writes or (not isnull(k) and w.regions['d%db' % k].writes):
                 out.append(('violation', key + ':beyond-count', '%s [%s]: destination %d is written although the array holds only %d strings'
                             % (where, desc, k, n)))
                 break
@@ -241,6 +252,10 @@ def run(ctx, tier, res, tag=''):
             ut.append((l, num, False))
         ut.append((l, n, True))
         ut.append((l, n + 1, True))
+        if 2 <= n <= 4:
+            # the two-pass protocol with destinations per string: an empty string legitimately has none
+            ut.append((l, n, 'first'))
+            ut.append((l, n, 'rest'))
     outs = pmap(_unpack, ut)
     seenk = set()
     for it, (issues, n_ok) in zip(ut, outs):
